@@ -1029,29 +1029,36 @@ class MkcalendarMethod(webdav.Method):
             resource = app.backend.create_collection(path)
         except FileNotFoundError:
             return webdav.Response(status="409 Conflict")
-        el = ET.Element("{DAV:}resourcetype")
-        await app.properties["{DAV:}resourcetype"].get_value(
-            href, resource, el, environ
-        )
-        ET.SubElement(el, "{urn:ietf:params:xml:ns:caldav}calendar")
-        await app.properties["{DAV:}resourcetype"].set_value(href, resource, el)
-        if base_content_type in ("text/xml", "application/xml"):
+        try:
+            el = ET.Element("{DAV:}resourcetype")
+            await app.properties["{DAV:}resourcetype"].get_value(
+                href, resource, el, environ
+            )
+            ET.SubElement(el, "{urn:ietf:params:xml:ns:caldav}calendar")
+            await app.properties["{DAV:}resourcetype"].set_value(href, resource, el)
             propstat = []
-            for el in et:
-                if el.tag != "{DAV:}set":
-                    webdav.nonfatal_bad_request(
-                        f"Unknown tag {el.tag} in mkcalendar", app.strict
-                    )
-                    continue
-                propstat.extend(
-                    [
-                        ps
-                        async for ps in webdav.apply_modify_prop(
-                            el, href, resource, app.properties
+            if base_content_type in ("text/xml", "application/xml"):
+                for el in et:
+                    if el.tag != "{DAV:}set":
+                        webdav.nonfatal_bad_request(
+                            f"Unknown tag {el.tag} in mkcalendar", app.strict
                         )
-                    ]
-                )
-                ret = ET.Element("{urn:ietf:params:xml:ns:carldav:}mkcalendar-response")
+                        continue
+                    propstat.extend(
+                        [
+                            ps
+                            async for ps in webdav.apply_modify_prop(
+                                el, href, resource, app.properties
+                            )
+                        ]
+                    )
+        except BaseException:
+            # RFC 4791, section 5.3.1: a failed MKCALENDAR must not leave the
+            # calendar collection behind
+            resource.destroy()
+            raise
+        if base_content_type in ("text/xml", "application/xml"):
+            ret = ET.Element("{urn:ietf:params:xml:ns:carldav:}mkcalendar-response")
             for propstat_el in webdav.propstat_as_xml(propstat):
                 ret.append(propstat_el)
             return webdav._send_xml_response(
